@@ -1,16 +1,49 @@
 from vlib.core import *
 
 META = dict(
-    level_text="Noninterference proved in Lean at two levels. (1) Orchestration model shared by HermEigsBase and GenEigsBase, for EVERY behaviour of the numeric kernels that reads only the live part of the factorization object: from ANY two object states (fresh, reused after any history of init/compute calls incl. non-converging and throwing ones, torn by an exception), init(v); compute(args) yields the same return value or exception, eigenvalues, eigenvectors, num_iterations, num_operations and (on return) info (c06_init_total, c06_history_independent, c06_fresh_vs_reused). (2) That hypothesis is DISCHARGED for the executable numeric kernel record of the symmetric family (Arnoldi.init, Lanczos.factorize_from incl. the re-orthogonalisation loop and expand_basis, TridiagQR shift loop, compress_H/compress_V, TridiagEigen, convergence test, V*y) by read/write footprint lemmas (herm_respects): init rebuilds V, H, f, beta, k from (operator, v0, const members) whatever the old object was, every kernel commutes with forgetting the trace counters, const members are never written; giving the UNCONDITIONAL theorems c06_herm_init_total / c06_herm_history_independent / c06_herm_fresh_vs_reused (every operator, every (n, nev, ncv), every two histories, every argument tuple; bit-identity because model functions are functions), c06_trace_counters_inert, c06_stale_basis_columns_harmless / c06_factorize_writes_before_reads (the C++ resize() keeps the stale columns >= 1 of a reused m_fac_V while the model zero-fills: factorize_from writes every column before reading it, so the C++-faithful init and the model's init give the identical object after the first factorization, for every old matrix of the right shape), and c06_two_solvers_one_op / c06_two_solvers_independent (any interleaving of calls on two solvers over one operator). Operator-side state: event model of set_shift/perform_op; the installed shift after construct and ANY history equals the constructor's for the real-shift classes (c06_op_shift_real) and for GenEigsComplexShiftSolver as the code is now (c06_op_shift_complex, c06_op_shift_complex_compute, c06_op_shift_complex_throw_in_probe) on every path incl. the user's operator throwing inside the root-selection probe (try/catch handler modelled); both earlier versions of the code are refuted for every shift/probe/count (c06_op_shift_complex_old_refuted: no restore, F3; c06_op_shift_complex_unguarded_refuted: restore on the normal path only, F3b). Structural facts regenerated from the headers on every run: all four random generators are non-static locals seeded by 0 or seed+123*iter (c06_seed_pure), no static-storage variable and exactly the eleven known mutable scratch members (c06_no_hidden_state). The same model definitions run at Float against the real SymEigsSolver/SymEigsShiftSolver on fresh, reused and second-solver runs (bit-exact up to the final V*Y product), the operator event trace incl. the probe shift computed from the source-translated generator is compared bit for bit, and the bitwise fresh/reused/second-solver/interleaved comparison plus operator probes run on all thirteen solver classes.",
-    note="Lean kernel + propext/Classical.choice/Quot.sound; translator; the model's Arnoldi.init rebuilds V from a zero matrix whereas the C++ resize() keeps stale columns >= 1 of an already allocated m_fac_V: shown invisible by c06_stale_basis_columns_harmless (hypotheses: old matrix of the allocated shape, operator returns vectors of length n) and cross-checked by the bitwise oracle; the same resize() argument for m_fac_H/m_fac_f (H is zeroed, f assigned) is by reading; the general family's numeric kernel record (GenSolver.genKern) does not exist yet: footprint lemmas for Arnoldi.factorize_from are proved, the classes are covered by the orchestration theorems and the oracle; g++ evaluates rng.random()*sigmar + rng.random() left to right (validated bitwise)",
+    level_text="Noninterference proved in Lean at two levels. (1) Orchestration model shared by HermEigsBase and GenEigsBase, for EVERY behaviour of the numeric kernels that reads only the live part of the factorization object: from ANY two object states (fresh, reused after any history of init/compute calls incl. non-converging and throwing ones, torn by an exception), init(v); compute(args) yields the same return value or exception, eigenvalues, eigenvectors, num_iterations, num_operations and (on return) info (c06_init_total, c06_history_independent, c06_fresh_vs_reused). (2) That hypothesis is DISCHARGED for the executable numeric kernel record of the symmetric family (Arnoldi.init, Lanczos.factorize_from incl. the re-orthogonalisation loop and expand_basis, TridiagQR shift loop, compress_H/compress_V, TridiagEigen, convergence test, V*y) by read/write footprint lemmas (herm_respects): init rebuilds V, H, f, beta, k from (operator, v0, const members) whatever the old object was, every kernel commutes with forgetting the trace counters, const members are never written; giving the UNCONDITIONAL theorems c06_herm_init_total / c06_herm_history_independent / c06_herm_fresh_vs_reused (every operator, every (n, nev, ncv), every two histories, every argument tuple; bit-identity because model functions are functions), c06_trace_counters_inert, c06_stale_basis_columns_harmless / c06_factorize_writes_before_reads (the C++ resize() keeps the stale columns >= 1 of a reused m_fac_V while the model zero-fills: factorize_from writes every column before reading it, so the C++-faithful init and the model's init give the identical object after the first factorization, for every old matrix of the right shape), and c06_two_solvers_one_op / c06_two_solvers_independent (any interleaving of calls on two solvers over one operator). (2b) The hypothesis is likewise DISCHARGED for the numeric kernel record of the GENERAL family GenSolver.genKern (Arnoldi.init, Arnoldi.factorize_from, the single/double-shift restart loop with UpperHessenbergQR/DoubleShiftQR + compress_H/compress_V, HessEigen on H, complex convergence test, V*y over complex pairs) by gen_respects (Proofs/C06Gen.lean), giving the unconditional c06_gen_init_total / c06_gen_history_independent / c06_gen_fresh_vs_reused / c06_gen_two_solvers_independent / c06_gen_two_solvers_one_op for GenEigsSolver and GenEigsRealShiftSolver, and c06_gencs_init_total / c06_gencs_history_independent for GenEigsComplexShiftSolver (GenSolver.computeCS: the sort_ritzpair prologue reads only V, the Ritz vectors/values and the operator at the probe shift as a fixed function; computeWith_sim); the stale-columns argument for the general family's Arnoldi.factorize_from is c06_gen_stale_basis_columns_harmless / c06_gen_factorize_writes_before_reads). Operator-side state: event model of set_shift/perform_op; the installed shift after construct and ANY history equals the constructor's for the real-shift classes (c06_op_shift_real) and for GenEigsComplexShiftSolver as the code is now (c06_op_shift_complex, c06_op_shift_complex_compute, c06_op_shift_complex_throw_in_probe) on every path incl. the user's operator throwing inside the root-selection probe (try/catch handler modelled); both earlier versions of the code are refuted for every shift/probe/count (c06_op_shift_complex_old_refuted: no restore, F3; c06_op_shift_complex_unguarded_refuted: restore on the normal path only, F3b). Structural facts regenerated from the headers on every run: all four random generators are non-static locals seeded by 0 or seed+123*iter (c06_seed_pure), no static-storage variable and exactly the eleven known mutable scratch members (c06_no_hidden_state). The same model definitions run at Float against the real SymEigsSolver/SymEigsShiftSolver and GenEigsSolver/GenEigsRealShiftSolver (`gen` requests answered by GenSolver.genKern) on fresh, reused and second-solver runs (bit-exact up to the final V*Y product), the operator event trace incl. the probe shift computed from the source-translated generator is compared bit for bit, and the bitwise fresh/reused/second-solver/interleaved comparison plus operator probes run on all thirteen solver classes.",
+    note="Lean kernel + propext/Classical.choice/Quot.sound; translator; the model's Arnoldi.init rebuilds V from a zero matrix whereas the C++ resize() keeps stale columns >= 1 of an already allocated m_fac_V: shown invisible by c06_stale_basis_columns_harmless (hypotheses: old matrix of the allocated shape, operator returns vectors of length n) and cross-checked by the bitwise oracle; the same resize() argument for m_fac_H/m_fac_f (H is zeroed, f assigned) is by reading; general family: in c06_gencs_* the complex-shift operator at the probe shift is a fixed function (that the installed shift is restored is the subject of c06_op_shift_complex); g++ evaluates rng.random()*sigmar + rng.random() left to right (validated bitwise)",
     technique="Lean 4 proof (simulation relation over the orchestration state machine + per-function footprint lemmas by induction over the loops; event-trace model of the operator) + bit-exact differential correspondence on fresh/reused/shared objects + bitwise implementation-level oracle with operator probes",
     design="§5 C06", harnesses=['c06'])
+
+def compare_gen_aware(req_file, impl_file, model_file, soft_ulps=0, float_fields=None, maxreport=5, rel_tol=1e-13):
+    """compare_segments, with the rule of checks/c02.py for the `rows=` segment of requests on the GENERAL family (`gen`/`genf`):
+       eigenvectors = V * Y is a matrix-matrix product whose summation order differs from the model's; every term V(i,k) Y(k,j) is
+       bounded by 1 (unit columns, unit coefficient vectors), so the rounding difference is |a - b| <= rel_tol * 64 * max(1, max|entry|)
+       even when the sum itself cancels to a numerically zero vector (rank-deficient operators with ncv = n: C02's finding F13).
+       Every other token (return value, status, counters, eigenvalues `e:`, beta, hash of the factorization) must be equal."""
+    res = {'total': 0, 'equal': 0, 'soft': 0, 'hard': [], 'badop': 0}
+    with open(req_file) as fr, open(impl_file) as fi, open(model_file) as fm:
+        for n, (rq, a, b) in enumerate(zip(fr, fi, fm)):
+            res['total'] += 1
+            a = a.rstrip('\n'); b = b.rstrip('\n')
+            if a == b: res['equal'] += 1; continue
+            if b == 'bad-op': res['badop'] += 1
+            floor = 1.0 if rq.split(' ', 1)[0] in ('gen', 'genf') else 0.0
+            sa = a.split(' | '); sb = b.split(' | '); ok = len(sa) == len(sb)
+            if ok:
+                for x, y in zip(sa, sb):
+                    if x == y: continue
+                    tx = x.split(); ty = y.split()
+                    if not (tx and tx[0].startswith('rows=') and len(tx) == len(ty)): ok = False; break
+                    vals = [bits_to_float(int(t)) for t in tx if t.isdigit()]
+                    scale = max([abs(v) for v in vals if v == v] + [floor])
+                    for p, q in zip(tx, ty):
+                        if p == q: continue
+                        if not (p.isdigit() and q.isdigit()): ok = False; break
+                        fp, fq = bits_to_float(int(p)), bits_to_float(int(q))
+                        if not (abs(fp - fq) <= rel_tol * 64 * scale): ok = False; break
+                    if not ok: break
+            if ok: res['soft'] += 1
+            elif len(res['hard']) < maxreport: res['hard'].append((n + 1, rq.rstrip('\n')[:2000], a[:2000], b[:2000]))
+            else: res['hard_more'] = res.get('hard_more', 0) + 1
+    return res
 
 def run(tier, seed, replay=None):
     R = Run('C06', tier, seed)
     R.trusted = TRUSTED_COMMON + [
         'determinism of each hardware floating-point operation (bit-identity follows from equality of model inputs)',
-        'the numeric kernel record HermSolver.hermKern is tied to the real classes by the bit-level correspondence (symmetric family); the other classes are instances of the orchestration model by reading, validated by the oracle',
+        'the numeric kernel records HermSolver.hermKern (symmetric family) and GenSolver.genKern (GenEigsSolver, GenEigsRealShiftSolver) are tied to the real classes by the bit-level correspondence on fresh/reused/second-solver runs; GenSolver.computeCS by C02; the other classes are instances of the orchestration model by reading, validated by the oracle',
         'Model/OpShift.lean: the solvers touch the operator only through set_shift and perform_op (checked by the event-trace correspondence on instrumented operators)',
         'order of evaluation of the two generator draws in the probe-shift expression is the compiler\'s (validated bitwise on every run)']
     R.assumptions = ['both solver objects were constructed with the same (operator, nev, ncv[, sigma]) and their const members are intact (Wf)',
@@ -22,10 +55,10 @@ def run(tier, seed, replay=None):
         R.failures += load_oracle(os.path.join(out, 'oracle.jsonl'))
         return R.finish()
     standard_prove(R, 'C06', ['Sort', 'Restart', 'Givens', 'Rand', 'RandSites', 'Footprint'])
-    r = standard_corr(R, 'c06', 'solver-herm-reuse+opshift', compare=compare_segments)
+    r = standard_corr(R, 'c06', 'solver-herm+gen-reuse+opshift', compare=compare_gen_aware)
     if R.broken and not R.failures and tier == 'quick':
         R.notes.append('obligation broken: extended search at thorough budget')
-        standard_corr(R, 'c06', 'solver-herm-reuse+opshift-search', tier='thorough', compare=compare_segments)
+        standard_corr(R, 'c06', 'solver-herm+gen-reuse+opshift-search', tier='thorough', compare=compare_gen_aware)
     if r:
         st = r['stats'].get('counters', {})
         R.cov['distinct_nontrivial'] = distinct_count(os.path.join(r['out'], 'requests.txt')) + st.get('oracle_fresh_vs_reused', 0)
